@@ -288,6 +288,52 @@ func levelsGen(r *rand.Rand, n int, small bool) []Case {
 			tags["deep-levels-boundary-tombstone"] = true
 			steps = 0
 		}
+		if c%8 == 6 {
+			// table names are reused (0-0, 0-1, … again once a compaction has emptied L0): rounds of same-shaped tables
+			// (same users, two-digit timestamps, plain values: equal block offsets and lengths) with a compaction between
+			// the rounds and no lookup in between — anything remembered about a table by its name is stale afterwards
+			users = users[:1+r.Intn(len(users))]
+			if len(users) > 2 {
+				users = users[:2]
+			}
+			n := 2 + r.Intn(2)
+			ops[0] = fmt.Sprintf("lm %d %d %d 0", n, 1+r.Intn(3), []int{200, 4096}[r.Intn(2)])
+			low = 0
+			plain := func(ts int) bool {
+				for _, u := range users {
+					if (len(u)+ts*7)%5 == 0 || (len(u)+ts)%6 == 0 {
+						return false
+					}
+				}
+				return true
+			}
+			ts := 10
+			next := func() int {
+				for !plain(ts) {
+					ts++
+				}
+				ts++
+				return ts - 1
+			}
+			rounds := 2 + r.Intn(2)
+			for rd := 0; rd < rounds; rd++ {
+				for i := 0; i < n; i++ {
+					t := next()
+					var pairs [][2]any
+					for _, u := range users {
+						pairs = append(pairs, [2]any{u, t})
+					}
+					ops = append(ops, "flush "+sortedEntries(pairs))
+				}
+				if rd < rounds-1 {
+					ops = append(ops, "compact")
+				}
+			}
+			maxTs = ts + 1
+			queries()
+			tags["table-name-reuse-same-shape"] = true
+			steps = 0
+		}
 		for s := 0; s < steps; s++ {
 			switch x := r.Intn(10); {
 			case x < 6:
